@@ -110,6 +110,9 @@ theorem sameSet_iff {a b : List Nat} : sameSet a b = true â†” (âˆ€ x, x âˆˆ a â†
 
 theorem sameSet_refl (a : List Nat) : sameSet a a = true := sameSet_iff.2 fun _ => Iff.rfl
 
+theorem sameEntry_refl (e : FEntry) : sameEntry e e = true := by
+  simp [sameEntry, sameSet_refl]
+
 /-! ### name generation: the loop returns the first index â‰¥ start that is not used -/
 
 theorem filter_le_length (used : List Nat) (i : Nat) :
